@@ -680,5 +680,17 @@ class Prop:
                     return None
                 w = [x / tot for x in fr]
             ws.append("[" + ";".join(qlit(x) for x in w) + "]%Q")
+        # cost guard for the exact rational evaluation: entries that are not short fractions (binary expansions of 1/6,
+        # 0.3, sqrt 2 ...) make the denominators grow with every mode; such cases are replayed only on small grids
+        nums = []
+        for n in range(N):
+            if case["marginals"] is not None and case["marginals"][n] is not None:
+                fr = [Fraction(float(x)) for x in case["marginals"][n]]
+                nums += [x / sum(fr) for x in fr]
+        for c in m.cores:
+            nums += [Fraction(float(x)) for x in c.reshape(-1).tolist()]
+        long_fractions = sum(1 for x in nums if x.denominator > 2 ** 12)
+        if long_fractions and int(np.prod(shape)) * (2 if long_fractions <= N else 8) > 400:
+            return None
         return "mkCase %s [%s] %s %s %s" % (coq_tensor(tj, qx, "Q"), "; ".join(ws), coq_tensor(from_tn(m), qx, "Q"),
                                            "true" if case.get("normalize", True) else "false", qx(v))
